@@ -20,8 +20,8 @@ TD = dt.timedelta
 
 UNITS = [('second', 'seconds', 'PT%dS', 1), ('minute', 'minutes', 'PT%dM', 60), ('hour', 'hours', 'PT%dH', 3600), ('day', 'days', 'P%dD', 86400),
          ('week', 'weeks', 'P%dW', 604800), ('month', 'months', 'P%dM', 2592000), ('year', 'years', 'P%dY', 31536000)]
-DUR_CARRIERS = ['{}', '{}', 'it lasted {} in total', 'we waited {} for nothing']
-RANGE_CARRIERS = ['{}', '{}', 'I will be away {}', 'the shop is closed {} this time']
+DUR_CARRIERS = ['{}', '{}', 'it lasted {} in total', 'we waited {} for nothing', '{}.', 'we waited {}, then left.']
+RANGE_CARRIERS = ['{}', '{}', 'I will be away {}', 'the shop is closed {} this time', '{}.', 'I will be away {}, call 4 of us.']
 DUR_RE = re.compile(r'^P(?:(\d+(?:\.\d+)?)Y)?(?:(\d+(?:\.\d+)?)M)?(?:(\d+(?:\.\d+)?)W)?(?:(\d+(?:\.\d+)?)D)?'
                     r'(?:T(?:(\d+(?:\.\d+)?)H)?(?:(\d+(?:\.\d+)?)M)?(?:(\d+(?:\.\d+)?)S)?)?$')
 TRIPLE_RE = re.compile(r'^\(([^,()]+),([^,()]+),([^,()]*)\)$')
@@ -247,7 +247,7 @@ def all_durations(step):
         for u in range(7):
             for n in range(1, 5001):
                 if n <= 120 or n % step == 0 or n in (365, 366, 999, 1000, 1001, 4999, 5000):
-                    yield {'unit': u, 'n': n, 'carrier': DUR_CARRIERS[(n + u) % 4], 'ref': REF0}
+                    yield {'unit': u, 'n': n, 'carrier': DUR_CARRIERS[(n + u) % 6], 'ref': REF0}
     return gen
 
 
@@ -290,7 +290,7 @@ def range_cases():
         return (dict(a, kind='datetime', time=noword(ta['time'])), dict(b, kind='datetime', time=noword(tb['time'])))
     dts = st.builds(dt_pair, dates, times_day)
     return st.builds(lambda p, f, ci, r: {'a': p[0], 'b': p[1], 'frame': f, 'carrier': RANGE_CARRIERS[ci], 'ref': r},
-                     st.one_of(dates, times, times, dts), st.sampled_from(['from-to', 'between-and']), st.integers(0, 3), G.refs())
+                     st.one_of(dates, times, times, dts), st.sampled_from(['from-to', 'between-and']), st.integers(0, 5), G.refs())
 
 
 def word_ranges(step):
@@ -305,7 +305,7 @@ def word_ranges(step):
                 continue
             for j, (a, b) in enumerate(pairs):
                 yield {'a': {'kind': 'time', 'time': a}, 'b': {'kind': 'time', 'time': b}, 'frame': 'from-to' if (i + j) % 2 else 'between-and',
-                       'carrier': RANGE_CARRIERS[(i + j) % 4], 'ref': r.isoformat()}
+                       'carrier': RANGE_CARRIERS[(i + j) % 6], 'ref': r.isoformat()}
     return gen
 
 
